@@ -30,6 +30,7 @@ const (
 	stLock
 	stCond
 	stDone
+	stPred // blocked until pred() holds (harness-level wait, modelled as blocking instead of spinning)
 )
 
 type Thread struct {
@@ -38,6 +39,7 @@ type Thread struct {
 	state    int
 	waitM    *Mutex
 	yielding bool
+	pred     func() bool
 	Op       string // label of the harness-level operation in flight (diagnostics)
 }
 
@@ -145,6 +147,8 @@ func (t *Thread) enabled() bool {
 		return true
 	case stLock:
 		return !t.waitM.held
+	case stPred:
+		return t.pred()
 	}
 	return false
 }
@@ -211,9 +215,12 @@ func (s *Sched) yield() {
 		}
 	}
 	if runningEnabled && yielding {
-		// a polling thread gives way: the others come first and switching to them is not a preemption
-		en[n] = me
-		n++
+		// a polling thread gives way: while another thread can run, the poller is not schedulable (fairness; otherwise pollers could hand
+		// the processor to each other for ever), and switching away from it is not a preemption
+		if n == 0 {
+			en[n] = me
+			n++
+		}
 		runningEnabled = false
 	}
 	if n == 0 {
@@ -289,6 +296,15 @@ func Yield() {
 		s.cur.yielding = true
 	}
 	s.yield()
+}
+
+// Await blocks the calling thread until pred holds (evaluated at scheduling points; pred must only read harness state).
+func Await(pred func() bool) {
+	s := S
+	t := s.cur
+	t.state, t.pred = stPred, pred
+	s.yield()
+	t.state, t.pred = stRunnable, nil
 }
 
 // PointNote is Point plus a log line describing the operation about to happen.
